@@ -134,7 +134,7 @@ def mutate_text(rng, t):
     # splice a token in at a token boundary if possible (so that keywords really arrive as keywords)
     j = t.find(' ', i)
     j = i if j < 0 else j
-    return t[:j] + rng.choice(['$', '@', ';', '}', '{', ',', '<', '"', "'", '#', '0x', ' type ', ')', '::', ' pub ', ' pub ', ' extern ',
+    return t[:j] + rng.choice(['$', '@', ';', '}', '{', ',', '<', '>', '>>', '<>', '"', "'", '#', '0x', ' type ', ')', '::', ' pub ', ' pub ', ' extern ',
                                ' fn ', ' impl ', ' use ', ' mut ', ' const ', ' enum ', ' vftable ', ' _ ', ' * ', ' & ', ' -> ', ' = ', ' : ']) + t[j:]
 
 def semi_module(rng):
